@@ -26,11 +26,21 @@ fn lua_from_env() -> Lua {
     {
         "unsafe" => unsafe { Lua::unsafe_new() },
         "safe" => Lua::new(),
-        _ => Lua::new_with(
-            StdLib::COROUTINE | StdLib::TABLE | StdLib::STRING | StdLib::UTF8 | StdLib::MATH,
-            Default::default(),
-        )
-        .expect("failed to start Lua"),
+        _ => {
+            let lua = Lua::new_with(
+                StdLib::COROUTINE | StdLib::TABLE | StdLib::STRING | StdLib::UTF8 | StdLib::MATH,
+                Default::default(),
+            )
+            .expect("failed to start Lua");
+            // The base library is always loaded and brings `dofile` and `loadfile`, which read and
+            // run files from disk: they have no place in the sandbox.
+            for name in ["dofile", "loadfile"] {
+                lua.globals()
+                    .raw_set(name, mlua::Nil)
+                    .expect("failed to restrict the Lua base library");
+            }
+            lua
+        }
     }
     // </block>
 }
